@@ -244,3 +244,84 @@ Fixpoint calls_of (shared : list (nat * nat)) (k : nat) (l : list ev) : list boo
 
 Definition inner_events (shared : list (nat * nat)) (k : nat) (fstart fstop : bool) (l : list ev) : list ev :=
   fst (sc_run k fstart fstop sc0 (calls_of shared k l)).
+
+(* ---- the context handed to Start / Shutdown --------------------------------------------------------
+   Every loop above receives a context.Context and hands it to each component, but NONE of them
+   consults it: a cancelled / expired context changes what a component may answer, never which
+   components are called.  The context-aware versions below thread the state of the context
+   ([done]) through the calls to make exactly that explicit:
+     - a component may end the context during its call ([cancels]: a slow drain that eats the
+       shutdown deadline, a caller cancelling meanwhile),
+     - a context-sensitive component ([sens]) returns ctx.Err() when the context it was given is done,
+     - the loops never look at [done].
+   collector.go passes ONE context to Service.Start and to the Service.Shutdown that follows a
+   failed Start; the Shutdown at the end of a successful run gets its own context. *)
+Record cx : Type := {
+  d0_start : bool; d0_stop : bool;                 (* the context is already done when the phase begins *)
+  xc_start : nat -> bool; cc_start : nat -> bool;  (* extension / component ends the context in its Start *)
+  xc_stop : nat -> bool; cc_stop : nat -> bool;    (* ... in its Shutdown *)
+  x_sens : nat -> bool; c_sens : nat -> bool       (* returns ctx.Err() when the context is done *)
+}.
+
+Fixpoint start_loop_cx (mk : nat -> ev) (sel fails cancels sens : nat -> bool) (done : bool) (l : list nat)
+  : (list ev * option nat) * bool :=
+  match l with
+  | [] => (([], None), done)
+  | n :: r =>
+      if sel n then
+        let done' := done || cancels n in
+        if fails n || (sens n && done') then (([mk n], Some n), done')
+        else let '((evs, res), d) := start_loop_cx mk sel fails cancels sens done' r in ((mk n :: evs, res), d)
+      else start_loop_cx mk sel fails cancels sens done r
+  end.
+
+Fixpoint stop_loop_cx (mk : nat -> ev) (sel fails cancels sens : nat -> bool) (done : bool) (l : list nat)
+  : (list ev * list nat) * bool :=
+  match l with
+  | [] => (([], []), done)
+  | n :: r =>
+      if sel n then
+        let done' := done || cancels n in
+        let '((evs, errs), d) := stop_loop_cx mk sel fails cancels sens done' r in
+        ((mk n :: evs, if fails n || (sens n && done') then n :: errs else errs), d)
+      else stop_loop_cx mk sel fails cancels sens done r
+  end.
+
+Definition none (_ : nat) : bool := false.
+
+(* Service.Start(ctx): the notifications neither end nor consult the context *)
+Definition service_start_cx (g : graph) (x : extset) (o : orders) (f : faults) (c : cx)
+  : (list ev * list err) * bool :=
+  let '((l1, r1), d1) := start_loop_cx XStart all (fx_start f) (xc_start c) (x_sens c) (d0_start c) (ext_order o) in
+  match r1 with
+  | Some e => ((l1, [ErrXStart e]), d1)
+  | None =>
+      let '(l2, e2) := if has_conf x then notify_config x f (ext_order o) else ([], []) in
+      match e2 with
+      | _ :: _ => ((l1 ++ l2, map ErrCfg e2), d1)
+      | [] =>
+          let '((l3, r3), d3) :=
+            start_loop_cx CStart (is_comp g) (fc_start f) (cc_start c) (c_sens c) d1 (rev (start_order o)) in
+          match r3 with
+          | Some n => ((l1 ++ l2 ++ l3, [ErrCStart n]), d3)
+          | None =>
+              let '(l4, r4) := notify_ready x f (ext_order o) in
+              ((l1 ++ l2 ++ l3 ++ l4, match r4 with Some e => [ErrReady e] | None => [] end), d3)
+          end
+      end
+  end.
+
+(* Service.Shutdown(ctx) *)
+Definition service_shutdown_cx (g : graph) (x : extset) (o : orders) (f : faults) (c : cx) (done : bool)
+  : list ev * list err :=
+  let '(l1, e1) := notify_notready x f (ext_order o) in
+  let '((l2, e2), d2) := stop_loop_cx CStop (is_comp g) (fc_stop f) (cc_stop c) (c_sens c) done (stop_order o) in
+  let '((l3, e3), _) := stop_loop_cx XStop all (fx_stop f) (xc_stop c) (x_sens c) d2 (rev (ext_order o)) in
+  (l1 ++ l2 ++ l3, map ErrNotReady e1 ++ map ErrCStop e2 ++ map ErrXStop e3).
+
+Definition collector_run_cx (g : graph) (x : extset) (o : orders) (f : faults) (c : cx) : list ev * list err :=
+  let '((ls, es), d) := service_start_cx g x o f c in
+  match es with
+  | _ :: _ => let '(ld, ed) := service_shutdown_cx g x o f c d in (ls ++ ld, es ++ ed)          (* same ctx *)
+  | [] => let '(ld, ed) := service_shutdown_cx g x o f c (d0_stop c) in (ls ++ ld, ed)          (* its own ctx *)
+  end.
